@@ -132,6 +132,8 @@ class Tr:
                 return "(- %s)" % self.e(n["inner"][0])
             if op == "++" and not n.get("isPostfix"):
                 return "(%s + 1)" % self.e(n["inner"][0])
+            if op == "--" and not n.get("isPostfix"):
+                return "(%s - 1)" % self.e(n["inner"][0])
             raise OutOfGrammar("unary %s" % op)
         if k == "BinaryOperator":
             op = n.get("opcode")
@@ -309,6 +311,21 @@ def extract(bdir):
                % ("true" if inc[0] < tms[0] else "false"))
     out.append("/-- call_out: `call_out_time++` stands before the visit of the slot (the callbacks) -/\n"
                "def sweepIncBeforeVisit : Bool := %s\n" % ("true" if inc[0] < vis[0] else "false"))
+
+    # the two "is the head due" tests: `--call_list[tm]->delta == 0` and `call_list[tm]->delta == 0`
+    vcond = kids(bs[vis[0]])[0]
+    need("call_out.head", strip(vcond).get("kind") == "BinaryOperator" and strip(vcond).get("opcode") == "&&",
+         "`call_list[tm] && --call_list[tm]->delta == 0` not found")
+    e, p = tr("call_out.head", ("delta",), fn)
+    emit("hd", "headDue", ["delta"], "Bool", "decide (%s)" % p(strip(vcond)["inner"][1]), strip(vcond)["inner"][1],
+         "call_out: the head is decremented and is due when (`delta` = value before the decrement)")
+    dos = [x for x in kids(bs[vis[0]])[1:2] if x.get("kind") == "DoStmt"]
+    need("call_out.do", len(dos) == 1, "the do/while is not the body of the `if`")
+    dcond = strip(kids(dos[0])[1])
+    need("call_out.do", dcond.get("kind") == "BinaryOperator" and dcond.get("opcode") == "&&",
+         "`while (call_list[tm] && call_list[tm]->delta == 0)` not found")
+    emit("nd", "nextDue", ["delta"], "Bool", "decide (%s)" % p(dcond["inner"][1]), dcond["inner"][1],
+         "call_out: the do/while continues while the new head has")
 
     # ---- get_all_call_outs (inline copy of time_left) ----------------------------------------------------
     fn = ast_function(bdir, SRC, "get_all_call_outs")
